@@ -35,7 +35,7 @@ type Loaded struct {
 	lemmas         map[string]*LemmaInfo
 	infos          map[*ssa.Function]*FuncInfo
 	mutableGlobals map[*ssa.Global]bool
-	initDone       map[*ssa.Package]map[*ssa.Global]Value
+	initRuns       map[*ssa.Package]*initRun
 	initOK         map[*ssa.Package]bool
 	rangeChecks    bool
 	allFuncs       map[*ssa.Function]bool
@@ -161,6 +161,23 @@ func parseContracts(file string, pkgDir string) ([]*FuncSpec, error) {
 			return nil, fmt.Errorf("%s:%d: clause before func", file, ln)
 		}
 		switch kw {
+		case "behavior":
+			// a further contract case of the same function; inherits the bookkeeping clauses
+			nb := &FuncSpec{Name: cur.Name, Pkg: cur.Pkg, Loops: map[string]*LoopSpec{}, Shape: map[string]int{}, File: file, Line: ln,
+				Behavior: fields[1], Props: append([]string{}, cur.Props...), OpaqueFns: append([]string{}, cur.OpaqueFns...),
+				MayNil: append([]string{}, cur.MayNil...)}
+			for k, v := range cur.Shape {
+				nb.Shape[k] = v
+			}
+			if cur.Behavior == "" && !cur.HasContract() && len(cur.Loops) == 0 {
+				// the unnamed prefix held only bookkeeping: this behavior replaces it
+				specs[len(specs)-1] = nb
+			} else {
+				specs = append(specs, nb)
+			}
+			cur = nb
+		case "nosafety":
+			cur.NoSafety = true
 		case "prop":
 			cur.Props = append(cur.Props, fields[1:]...)
 		case "requires", "ensures":
@@ -504,6 +521,9 @@ func genGhost(fset *token.FileSet, dir string, specs []*FuncSpec) ([]string, err
 			}
 		}
 		hn := harnessName(sp.Name)
+		if sp.Behavior != "" {
+			hn += "__" + sanitize(sp.Behavior)
+		}
 		fmt.Fprintf(&body, "// contract harness of %s (generated from %s:%d)\nfunc %s(%s) {\n", sp.Name, filepath.Base(sp.File), sp.Line, hn, strings.Join(params, ", "))
 		for _, c := range sp.Requires {
 			fmt.Fprintf(&body, "\tvc.Requires(%q, %s)\n", c.Label, c.Expr)
@@ -645,7 +665,7 @@ func loadProgram(cfg LoadConfig) (*Loaded, error) {
 	}
 	p := &Loaded{Root: root, Fset: token.NewFileSet(), specs: map[string]*FuncSpec{}, harnessOf: map[string]*ssa.Function{},
 		lemmas: map[string]*LemmaInfo{}, infos: map[*ssa.Function]*FuncInfo{}, mutableGlobals: map[*ssa.Global]bool{},
-		initDone: map[*ssa.Package]map[*ssa.Global]Value{}, initOK: map[*ssa.Package]bool{}, rangeChecks: true}
+		initOK: map[*ssa.Package]bool{}, rangeChecks: true}
 	// contracts
 	byDir := map[string][]*FuncSpec{}
 	err = filepath.Walk(root, func(path string, info os.FileInfo, err error) error {
@@ -764,9 +784,15 @@ func (p *Loaded) bindSpecs() {
 			continue
 		}
 		sp.SSAName = fnName(fn)
-		p.specs[sp.SSAName] = sp
-		if h := sp2.Func(harnessName(sp.Name)); h != nil {
-			p.harnessOf[sp.SSAName] = h
+		if _, dup := p.specs[sp.SSAName]; !dup {
+			p.specs[sp.SSAName] = sp // the first contract case is the one callers see
+		}
+		hn := harnessName(sp.Name)
+		if sp.Behavior != "" {
+			hn += "__" + sanitize(sp.Behavior)
+		}
+		if h := sp2.Func(hn); h != nil {
+			p.harnessOf[sp.Key()] = h
 		}
 	}
 	// lemmas: functions named vcLemma_* ; properties from the doc comment "prop: C06 C07"
@@ -880,7 +906,8 @@ func (p *Loaded) findMutableGlobals() {
 // a global that nothing writes after initialisation.
 func (p *Loaded) constGlobal(x *Exec, g *ssa.Global) (Value, bool) {
 	pkg := g.Pkg
-	if m, ok := p.initDone[pkg]; ok {
+	// per-executor view of the initialiser's results (objects are re-created in x)
+	if m, ok := x.initVals[pkg]; ok {
 		v, ok2 := m[g]
 		if !ok2 && !p.initOK[pkg] {
 			return UnknownV{nil, "package initialiser not fully evaluated"}, true
@@ -888,11 +915,46 @@ func (p *Loaded) constGlobal(x *Exec, g *ssa.Global) (Value, bool) {
 		return v, ok2
 	}
 	m := map[*ssa.Global]Value{}
-	p.initDone[pkg] = m
+	if x.initVals == nil {
+		x.initVals = map[*ssa.Package]map[*ssa.Global]Value{}
+	}
+	x.initVals[pkg] = m
+	run, done := p.initRuns[pkg]
+	if !done {
+		run = p.runInit(pkg)
+		if p.initRuns == nil {
+			p.initRuns = map[*ssa.Package]*initRun{}
+		}
+		p.initRuns[pkg] = run
+	}
+	if run != nil {
+		for gg, o := range run.ix.globals {
+			if gg.Pkg != pkg {
+				continue
+			}
+			if v, ok := run.heap.m[o]; ok {
+				m[gg] = x.importValue(run.ix, run.heap, v)
+			}
+		}
+	}
+	v, ok2 := m[g]
+	if !ok2 && !p.initOK[pkg] {
+		return UnknownV{nil, "package initialiser not fully evaluated"}, true
+	}
+	return v, ok2
+}
+
+type initRun struct {
+	ix   *Exec
+	heap *Heap
+}
+
+// runInit evaluates the package initialiser once (leniently); nil if there is none.
+func (p *Loaded) runInit(pkg *ssa.Package) *initRun {
 	initFn := pkg.Func("init")
 	if initFn == nil || initFn.Blocks == nil {
 		p.initOK[pkg] = true
-		return nil, false
+		return nil
 	}
 	ix := NewExec(p)
 	ix.lenient = true
@@ -922,19 +984,7 @@ func (p *Loaded) constGlobal(x *Exec, g *ssa.Global) (Value, bool) {
 		}
 	}()
 	p.initOK[pkg] = ok && !ix.lenientFailed
-	for gg, o := range ix.globals {
-		if gg.Pkg != pkg {
-			continue
-		}
-		if v, ok := st.heap.m[o]; ok {
-			m[gg] = x.importValue(ix, st.heap, v)
-		}
-	}
-	v, ok2 := m[g]
-	if !ok2 && !p.initOK[pkg] {
-		return UnknownV{nil, "package initialiser not fully evaluated"}, true
-	}
-	return v, ok2
+	return &initRun{ix: ix, heap: st.heap}
 }
 
 // importValue copies a value produced by the initialiser run into x (objects are re-created as constants).
